@@ -17,6 +17,18 @@ def table(names=None) -> dict:
         row = {}
         for f, info in ccls.model_fields.items():
             v0 = base.get(f, info.default)
+            if isinstance(v0, (list, tuple)) and v0 and all(isinstance(x, (int, float)) and not isinstance(x, bool) for x in v0):
+                # a list-valued parameter (ranges, probability triples): every POSITION probed on its own, the other entries as documented
+                for i in range(len(v0)):
+                    sig = ""
+                    for p in PROBES:
+                        vv = list(v0); vv[i] = p
+                        try:
+                            ccls(**{**base, f: vv}); sig += "a"
+                        except Exception:
+                            sig += "r"
+                    row[f"{f}[{i}]"] = sig
+                continue
             if isinstance(v0, bool) or not isinstance(v0, (int, float)): continue
             sig = ""
             for p in PROBES:
